@@ -21,7 +21,7 @@ EVIDENCE = os.path.join(ROOT, "evidence")
 REPLAYS = os.path.join(ROOT, "replays")
 KNOWN = os.path.join(ROOT, "known-findings.txt")
 TLA_CP = "/opt/veriftools/tla/tla2tools.jar:/opt/veriftools/tla/CommunityModules-deps.jar"
-CKBV = os.path.join(HARNESS, "target", "debug", "ckbv")
+BIN_DIR = os.path.join(HARNESS, "target", "debug")
 
 
 class ToolError(Exception):
@@ -60,35 +60,36 @@ def sh(cmd, timeout=None, env=None, cwd=None, stdin=None):
         return 124, out + "\n[timeout]"
 
 
-_built = False
+_built = set()
 
 
-def build_harness():
-    """cargo build of /verif/harness against /repo's *current working tree* (path deps)."""
-    global _built
-    if _built:
+def build_harness(binname):
+    """cargo build of one harness binary against /repo's *current working tree* (path deps)."""
+    if binname in _built:
         return
     t0 = time.time()
     lock = os.path.join(HARNESS, "Cargo.lock")
     if not os.path.exists(lock):
         shutil.copy("/repo/Cargo.lock", lock)
     env = {"CARGO_NET_OFFLINE": "true", "CARGO_TERM_COLOR": "never"}
-    rc, out = sh(["cargo", "build", "--offline", "--bin", "ckbv"], timeout=3600, env=env, cwd=HARNESS)
+    rc, out = sh(["cargo", "build", "--offline", "--bin", binname], timeout=3600, env=env, cwd=HARNESS)
     if rc != 0:
         log(out[-6000:])
         raise ToolError("harness build failed (rc=%d)" % rc)
-    _built = True
-    log("[build] harness built in %.0fs" % (time.time() - t0))
+    _built.add(binname)
+    log("[build] harness binary %s built in %.0fs" % (binname, time.time() - t0))
 
 
-def ckbv(args, timeout=1800, env=None, stdin=None):
-    build_harness()
+def ckbv(binname, args, timeout=1800, env=None, stdin=None):
+    """Run harness binary `binname` (src/bin/<binname>.rs) with args; returns (rc, combined output)."""
+    build_harness(binname)
     tmp = os.path.join(HARNESS, "target", "tmp")
     os.makedirs(tmp, exist_ok=True)
     e = {"TMPDIR": tmp, "RUST_BACKTRACE": "0"}
     if env:
         e.update(env)
-    rc, out = sh([CKBV] + [str(a) for a in args], timeout=timeout, env=e, cwd=ROOT, stdin=stdin)
+    rc, out = sh([os.path.join(BIN_DIR, binname)] + [str(a) for a in args], timeout=timeout, env=e, cwd=ROOT,
+                 stdin=stdin)
     return rc, out
 
 
